@@ -282,6 +282,8 @@ class Normalizer:
                 if a == F_:
                     return self.rewrite(("bin", "&&", neg(x[1]), b))
             return t
+        if k == "matches" and t[2][0] == "lit" and isinstance(t[2][1], bool):
+            return t[1] if t[2][1] else neg(t[1])           # `match b { true => .., false => .. }`
         if k == "matches" and t[1][0] == "tuple" and t[2][0] == "tuple" and len(t[1][1]) == len(t[2][1]):
             # a tuple matches a tuple pattern component-wise
             acc = None
